@@ -14,6 +14,11 @@ import GLua.Model.Cancel
     script <init> <action…> => <stack at every fetch…> <res>
         a generated operation sequence interpreted by a Lua driver program on the real interpreter
         and by `Cancel.step` here; Spec = no fetch by a thread whose attached context is done
+        <init>   = ctx | noctx | <libs>/<pre>/<entry>  (state set-up, see `initOf`): what the host did to the state
+                   before the outermost call (pre = '+'-separated: w sc<n> rc cc<n> R, or '-') and which API entry
+                   point makes the outermost call (do pcall pcallh call cbp cbph resume wdo).  `libs` (how the
+                   libraries were installed) and `w` (an earlier call that returned) leave no trace in the model:
+                   both branches of LState.callR start `ls.mainLoop`, the field written by SetContext/RemoveContext
     block <kind> <ctx> <ready> <cancel> => returned|hang <res>
     transp <program> => same|diff      (Impl vs Impl, compared in Go)
 -/
@@ -143,6 +148,7 @@ def parseAction (t : String) : Option Action :=
 def threadInStack (t : Nat) : List Frame → Bool
   | [] => false
   | .trun t' _ :: r => t' = t || threadInStack t r
+  | .act t' _ _ :: r => t' = t || threadInStack t r      -- the root thread of a Resume / worker entry has no trun frame of its own below the host
   | _ :: r => threadInStack t r
 
 /-- the Lua driver program only performs a resume on a suspended coroutine and a yield directly in a
@@ -198,15 +204,64 @@ def replay : Nat → List Action → Rep → Rep
     else
       replay n acts { r with st := s1 }
 
+/-! #### state set-up before the outermost call -/
+
+/-- one host operation performed on the (not running) state `th` before the outermost call:
+    `w` an earlier call that has returned (no trace in the context fields), `sc<n>` SetContext, `rc` RemoveContext,
+    `cc<n>` the host cancels context n, `R` an earlier run under its own context [9] that was stopped by cancelling
+    it (the done context stays attached). -/
+def applyPre (sys : Sys) (th : Nat) (op : String) : Option Sys :=
+  if op = "w" then some sys
+  else if op = "rc" then some (sys.setThread th (removeContext (sys.thread th)))
+  else if op = "R" then
+    some { (sys.setThread th (setContext (sys.thread th) [9])) with cancelled := [9] :: sys.cancelled }
+  else if op.startsWith "sc" then
+    (parseCtxTok (op.drop 2).toString).map (fun c => sys.setThread th (setContext (sys.thread th) c))
+  else if op.startsWith "cc" then
+    (parseCtxTok (op.drop 2).toString).map (fun c => { sys with cancelled := c :: sys.cancelled })
+  else none
+
+def applyPres (sys : Sys) (th : Nat) : List String → Option Sys
+  | [] => some sys
+  | op :: ops => (applyPre sys th op).bind (fun s => applyPres s th ops)
+
+/-- the configuration in which the outermost call starts.  Entry points: DoString / PCall / CallByParam{Protect}
+    (root PCall without handler), PCall / CallByParam with a Lua message handler, unprotected Call (no boundary at
+    all), Resume of a fresh thread made by NewThread after the set-up (thread 1), DoString on a worker thread made by
+    NewThread from a main state that carries context [8] (thread 1; the set-up is applied to the worker). -/
+def initOf (init : String) : Option St :=
+  if init = "ctx" then some (initSt [0]) else if init = "noctx" then some initPlain else
+  match init.splitOn "/" with
+  | [_, pre, entry] =>
+    let ops := if pre = "-" then [] else pre.splitOn "+"
+    let worker := entry = "wdo"
+    let sys0 : Sys :=
+      if worker then (applyHost { sys := { threads := [setContext {} [8]] } } 0 (.newThread false)).sys
+      else { threads := [{}] }
+    let th := if worker then 1 else 0
+    match applyPres sys0 th ops with
+    | none => none
+    | some sys =>
+      if entry = "resume" then
+        let s1 := applyHost { sys := sys } 0 (.newThread false)
+        some { sys := s1.sys, stack := [.act 1 (s1.sys.loopOf 1) false, .trun 1 false] }
+      else if entry = "call" then some { sys := sys, stack := [.act th (sys.loopOf th) false] }
+      else if entry = "pcallh" || entry = "cbph" then
+        some { sys := sys, stack := [.act th (sys.loopOf th) false, .pcall th .lua] }
+      else if entry = "do" || entry = "pcall" || entry = "cbp" || entry = "wdo" then
+        some { sys := sys, stack := [.act th (sys.loopOf th) false, .pcall th .none] }
+      else none
+  | _ => none
+
 def handleScript (init : String) (toks : List String) (impl : List String) : Verdict :=
-  match toks.mapM parseAction with
-  | none => { model := some "bad-action" }
-  | some acts =>
-    let s0 := if init = "ctx" then initSt [0] else initPlain
+  match toks.mapM parseAction, initOf init with
+  | none, _ => { model := some "bad-action" }
+  | _, none => { model := some "bad-init" }
+  | some acts, some s0 =>
     let r := replay (4 * acts.length + 64) acts { st := s0 }
     let expected := " ".intercalate (r.obs.reverse ++ [showRes r.st.result])
     -- transparency: the cancellation error may only appear when some context was cancelled by the script
-    let cancelledSome := toks.any (fun t => t.startsWith "cc")
+    let cancelledSome := toks.any (fun t => t.startsWith "cc") || !s0.sys.cancelled.isEmpty
     let spec := if !cancelledSome ∧ impl.getLast? = some "err:cancelled" then
         some "the script ended with the cancellation error although no context was ever cancelled (a coroutine inherited a context that died with its creator)"
       else r.bad
